@@ -106,6 +106,45 @@ func (p *Program) isRecursive(fn *ssa.Function) bool {
 	return false
 }
 
+// returnGuards: "guard return in loop N: e" - every return statement located inside loop N satisfies e
+// (results bound as in postconditions). Used for "an early exit reports an error".
+func (ex *Exec) returnGuards(fr *Frame, st *State, blk *ssa.BasicBlock, vals []Value, pos token.Pos) {
+	for _, g := range fr.contract.Guards {
+		if g.Kind != "return" {
+			continue
+		}
+		if g.Loop > 0 {
+			in := false
+			for _, li := range fr.loops {
+				if li.number == g.Loop && (li.blocks[blk] || (li.lexStart.IsValid() && pos.IsValid() && li.lexStart <= pos && pos < li.lexEnd)) {
+					in = true
+				}
+			}
+			if !in {
+				continue
+			}
+		}
+		extra := map[string]Value{}
+		env0 := &SpecEnv{vars: extra}
+		var res Value
+		switch len(vals) {
+		case 0:
+			res = Tuple{}
+		case 1:
+			res = vals[0]
+		default:
+			res = Tuple{vals}
+		}
+		bindResults(env0, fr.fn.Signature, res)
+		save := fr.specEnvExtra
+		fr.specEnvExtra = extra
+		goal := ex.specBool(fr, st, g.C)
+		fr.specEnvExtra = save
+		ex.top.oblCount["guard:return"]++
+		ex.obligeNamed(st, fmt.Sprintf("%s#guard(return in loop %d)%d", funcKey(ex.top.fn), g.Loop, ex.top.oblCount["guard:return"]), "guard", goal, "every return inside loop "+fmt.Sprint(g.Loop)+": "+g.C.Text, pos)
+	}
+}
+
 // checkGuards: contract-level guards "guard call|write|read <name>: e" become obligations at the matching sites.
 func (ex *Exec) checkGuards(fr *Frame, st *State, kind, name string, pos token.Pos) {
 	ex.checkGuardsAt(fr, st, kind, name, pos, nil, nil)
@@ -122,7 +161,7 @@ func (ex *Exec) checkGuardsAt(fr *Frame, st *State, kind, name string, pos token
 		if g.Loop > 0 {
 			in := false
 			for _, li := range fr.loops {
-				if li.number == g.Loop && blk != nil && li.blocks[blk] {
+				if li.number == g.Loop && blk != nil && (li.blocks[blk] || (li.lexStart.IsValid() && pos.IsValid() && li.lexStart <= pos && pos < li.lexEnd)) {
 					in = true
 				}
 			}
@@ -185,6 +224,24 @@ func (ex *Exec) call(fr *Frame, st *State, c *ssa.CallCommon, instr ssa.Instruct
 			return ex.inlineClosure(fr, st, f, args)
 		case FnRef:
 			callee = f.Fn
+		case MergedFn:
+			// any of the alternatives may run: havoc every captured local and the heap, result arbitrary
+			ms := newModSet()
+			ms.allHeap = true
+			for _, a := range f.Alts {
+				if cl, ok := a.(Closure); ok {
+					for _, b := range cl.Binds {
+						if p, ok := b.(Ptr); ok {
+							if cr, ok := p.Loc.Root.(CellRoot); ok {
+								ms.cells[cr.A] = true
+							}
+						}
+					}
+				}
+			}
+			ex.havocModSet(fr, st, ms, ex.vc.name("mfn"))
+			ex.vc.note("call through a function value with several possible targets in %s: effects havocked", funcKey(fr.fn))
+			return ex.havocResults(st, c.Signature().Results(), "mfn")
 		default:
 			return ex.callbackCall(fr, st, c, fv, args, pos)
 		}
